@@ -159,6 +159,14 @@ class World(object):
             return False
         return True
 
+    def unknown_pilot_state(self):
+        # a state notification for a pilot which was never added to this tmgr
+        trace('state of unknown pilot')
+        self.s._base_state_cb(rpc.STATE_PUBSUB, {'cmd': 'update', 'arg': [
+            {'type': 'pilot', 'uid': 'pilot.0009',
+             'state': rps.PMGR_ACTIVE}]})
+        return True
+
     def finish_tasks(self, i, state=rps.DONE):
         # every task forwarded to pilot i reports a state beyond execution
         docs = []
@@ -269,16 +277,18 @@ def _apply(w, ev):
     if ev == 13: return w.pilot_state(0, rps.DONE)
     if ev == 14: return w.finish_tasks(0)
     if ev == 15: return w.finish_tasks(1, rps.FAILED)
-    return w.remove([0, 1])
+    if ev == 16: return w.remove([0, 1])
+    if ev == 17: return w.submit([None, None, None, None])
+    return w.unknown_pilot_state()
 
 
-NEV = 16
+NEV = 18
 
 
 @obligation(params={'kind': (0, 1), 'e0': (1, NEV), 'e1': (0, NEV),
                     'e2': (0, NEV), 'e3': (0, NEV)},
             shapes={'quick': [{'L': 3}], 'thorough': [{'L': 4}]},
-            partition={'quick': ('e0', 16), 'thorough': ('e0', 16)},
+            partition={'quick': ('e0', 18), 'thorough': ('e0', 18)},
             timeout={'quick': 300, 'thorough': 3000},
             funcs=FUNCS_B + ['radical/pilot/tmgr/scheduler/round_robin.py:'
                              'RoundRobin._schedule_tasks',
@@ -290,7 +300,9 @@ NEV = 16
                    'each); L events over {submit 1/2/3 unnamed tasks, submit a '
                    'task naming p0, submit [naming p1, unnamed], add p0 / p1 / '
                    'both, remove p0 / p1 / both in one command, pilot p0/p1 '
-                   'ACTIVE, p0 DONE, tasks of p0 DONE, tasks of p1 FAILED}',
+                   'ACTIVE, p0 DONE, tasks of p0 DONE, tasks of p1 FAILED, submit '
+                   '4 unnamed tasks, state notification for a pilot that was '
+                   'never added}',
             stubs=['session sandbox getters -> constants', 'advance -> '
                    'recorder', 'locks no-op'])
 def h_events(kind, e0, e1, e2, e3, L=3):
@@ -334,19 +346,22 @@ def h_early(kind, a, b, c, d, e):
 
 # ------------------------------------------------------------------------------
 @obligation(params={'c0': (0, 3), 'n': (1, 5), 'fin': (0, 2), 'dup': 'bool',
-                    'act_first': 'bool'},
+                    'act_first': 'bool', 'again': (0, 2)},
             timeout={'quick': 300, 'thorough': 900},
             funcs=['radical/pilot/tmgr/scheduler/backfilling.py:Backfilling.'
                    + n for n in ('add_pilots', 'update_pilots', 'update_tasks',
                                  '_work', '_schedule_tasks')],
             bounds='Backfilling with one pilot of 1/2/4/8 cores (hwm 200%); '
                    'n=1..5 tasks of 2 cores; pilot becomes ACTIVE before or '
-                   'after the submission; then every assigned task reports '
+                   'after the submission; optionally a further scheduling pass '
+                   '(another submission / a pilot state notification + a second '
+                   'pilot); then every assigned task reports '
                    'AGENT_STAGING_OUTPUT_PENDING / DONE / FAILED (optionally '
                    'twice)')
-def h_backfill_hwm(c0, n, fin, dup, act_first):
+def h_backfill_hwm(c0, n, fin, dup, act_first, again):
     """never beyond the high-water mark; usage returns to zero"""
     c0, n, fin = conc(c0, 0, 3), conc(n, 1, 5), conc(fin, 0, 2)
+    again = conc(again, 0, 2)
     cores = [1, 2, 4, 8][c0]
     w = World(1, cores=(cores, 4))
     check(w.add([0]), 'add refused')
@@ -356,6 +371,13 @@ def h_backfill_hwm(c0, n, fin, dup, act_first):
     if not act_first:
         check(not w.fwd, 'assigned before the pilot was ACTIVE')
         w.pilot_state(0, rps.PMGR_ACTIVE)
+    # further scheduling passes while nothing has finished
+    if again == 1:
+        w.submit([None])
+        n += 1
+    if again == 2:
+        w.pilot_state(0, rps.PMGR_ACTIVE)
+        w.add([1])
     reach()
     info = w.s._pilots[PIDS[0]]['info']
     hwm  = int(cores * 200 / 100)
@@ -364,6 +386,7 @@ def h_backfill_hwm(c0, n, fin, dup, act_first):
         pass
     # replay the assignment order: before each assignment used < hwm
     for i, f in enumerate(w.fwd):
+        if f[1] != PIDS[0]: continue
         check(used < hwm, 'task %s assigned with used=%s >= hwm=%s',
               f[0], used, hwm)
         used += 2
